@@ -196,8 +196,8 @@ def run(ctx):
         if f is None:
             raise AnalysisError(f'Pattern.{meth} vanished')
         src = ast.unparse(f.node)
-        ok = '.parser_class & parser_classes' in src or 'match_block_candidates(' in src or 'match_statement_candidates(' in src
-        direct = '.parser_class & parser_classes' in src
+        ok = X.has(src, '.parser_class & parser_classes') or X.has(src, 'match_block_candidates(') or X.has(src, 'match_statement_candidates(')
+        direct = X.has(src, '.parser_class & parser_classes')
         (ctx.judge('R3', f'Pattern.{meth}', facts={'filters_directly': direct}) if ok else
          ctx.violation('R3', f'Pattern.{meth}', f.where, 'candidates are not filtered by the active parser classes'))
 
